@@ -95,15 +95,19 @@ def generic_simplifier(rec):
             for cut in ("last", "first"):
                 r = copy.deepcopy(rec)
                 sp = r["spec"]
-                for key in ("rows", "cols", "layout", "vals"):
+                for key in ("rows", "cols", "layout", "vals", "dtype"):
                     if isinstance(sp.get(key), list):
                         sp[key] = sp[key][:-1] if cut == "last" else sp[key][1:]
                 sp["ranks"] = (sp["ranks"][:-2] + [1]) if cut == "last" else ([1] + sp["ranks"][2:])
                 out.append(r)
-        if spec.get("dtype") == "c16":
+        if spec.get("dtype") != "f8":
             r = copy.deepcopy(rec)
             r["spec"]["dtype"] = "f8"
             out.append(r)
+            if isinstance(spec.get("dtype"), list):
+                r = copy.deepcopy(rec)
+                r["spec"]["dtype"] = "c16"
+                out.append(r)
         lay = spec.get("layout") or []
         for i in range(len(lay)):
             if lay[i] != "C":
